@@ -1286,8 +1286,10 @@ def classify(gen, res):
         return {'status': 'undecided', 'reason': 'verus produced no verification results: ' + msg, 'rendered': ''.join(d.get('rendered') or '' for d in errors[:8])}
     vr = js['verification-results']
     if vr.get('encountered-vir-error'):
-        msg = '; '.join(d['message'] for d in errors[:5])
-        return {'status': 'undecided', 'reason': 'verus rejected the text (unsupported construct / type error): ' + msg, 'rendered': ''.join(d.get('rendered') or '' for d in errors[:8])}
+        # name the construct Verus rejected, not the verification failures that happen to come first (vacuity twins etc.)
+        nonverif = [d for d in errors if not any(p_ in d['message'] for p_ in VERIF_FAIL_PATTERNS) and not d['message'].startswith('aborting due to')] or errors
+        msg = '; '.join(d['message'] for d in nonverif[:5])
+        return {'status': 'undecided', 'reason': 'verus rejected the text (unsupported construct / type error): ' + msg, 'rendered': ''.join(d.get('rendered') or '' for d in nonverif[:8])}
     regions = gen['regions']
     labels = gen['labels']
 
